@@ -485,12 +485,19 @@ class C15(Prop):
                   'rows 0', 'rows 3', 'reopen rw']
             sh.dump(L)
             cases.append(Case(L, 'malformed'))
-        # rejected creates (the case ends there: a rejected create leaves a frame group without data behind --
-        # DESIGN.md section 9 item 26, the subject of C08)
+        # rejected creates.  Since /repo a3cfdfc the front-end refuses an empty column list and a Nothing column before
+        # anything is created; one create that fails AFTER the entity group exists is left (an empty column name,
+        # DESIGN.md section 9 item 26 / C08), so a case ends at a rejected create.  The order of the checks is exercised:
+        # per column first the type, then the duplicate name.
         a, b = hexs('a'), hexs('b')
         for L in ['new 0', 'new 2 %s s: Int32 %s s: Int32' % (a, a), 'new 2 %s s: Int32 %s s: Int8' % (a, b),
                   'new 1 %s s: Float' % a, 'new 1 %s s: Char' % a, 'new 2 %s s: Int32 %s s: Nothing' % (a, b),
-                  'new 3 %s s: Int8 %s s: Int32 %s s: Int32' % (a, b, b), 'new 2 %s s: Double s: s: Int32' % a]:
+                  'new 1 %s s: Nothing' % a, 'new 1 %s s: Opaque' % a,
+                  'new 3 %s s: Int8 %s s: Int32 %s s: Int32' % (a, b, b),        # type of column 0 before the duplicate
+                  'new 3 %s s: Int32 %s s: Int32 %s s: Nothing' % (a, a, b),     # duplicate at column 1 before Nothing at column 2
+                  'new 3 %s s: Int32 %s s: Nothing %s s: Int32' % (a, b, a),     # Nothing at column 1 before the duplicate at column 2
+                  'new 2 %s s: Int32 %s s: Nothing' % (a, a),                    # same column: the type is checked first
+                  'new 2 %s s: Double s: s: Int32' % a, 'new 2 s: s: Nothing %s s: Int32' % a]:
             cases.append(Case([L], 'malformed-create'))
         return cases
 
